@@ -175,3 +175,111 @@ pub fn compile_src(src: &str, target: Tgt, mode: Mode) -> CompileOutcome {
         validate_layout: false,
     })
 }
+
+/// Include handler reading from a directory on disk; `#include "x"` is looked up relative to the
+/// including file first and then relative to the root (as the repository's own external tests do)
+pub struct DiskFiles {
+    pub root: std::path::PathBuf,
+}
+
+fn normalise(path: &str) -> String {
+    let mut parts: Vec<&str> = Vec::new();
+    for p in path.split('/') {
+        match p {
+            "" | "." => {}
+            ".." => {
+                parts.pop();
+            }
+            p => parts.push(p),
+        }
+    }
+    parts.join("/")
+}
+
+impl rssl::text::IncludeHandler for DiskFiles {
+    fn load(
+        &mut self,
+        file_name: &str,
+        parent_name: &str,
+    ) -> Result<rssl::text::FileData, rssl::text::IncludeError> {
+        let parent_dir = match parent_name.rfind('/') {
+            Some(i) => &parent_name[..i],
+            None => "",
+        };
+        let candidates = [normalise(&format!("{}/{}", parent_dir, file_name)), normalise(file_name)];
+        for c in candidates {
+            let full = self.root.join(&c);
+            if let Ok(bytes) = std::fs::read(&full) {
+                return match String::from_utf8(bytes) {
+                    Ok(contents) => Ok(rssl::text::FileData { real_name: c, contents }),
+                    Err(_) => Err(rssl::text::IncludeError::FileNotText),
+                };
+            }
+        }
+        Err(rssl::text::IncludeError::FileNotFound)
+    }
+}
+
+/// Compile a file of a directory on disk (the repository's own test inputs)
+pub fn compile_disk(root: &str, entry: &str, target: Tgt, mode: Mode) -> CompileOutcome {
+    let r = guard(|| {
+        let mut inc = DiskFiles { root: std::path::PathBuf::from(root) };
+        let mut args = rssl::CompileArgs::new(entry, &mut inc, target.target())
+            .support_buffer_address(target.buffer_address());
+        match &mode {
+            Mode::All => {}
+            Mode::Named(n) => args = args.pipeline_name(Some(n.as_str())),
+            Mode::NoPipeline => args = args.no_pipeline_mode(),
+        }
+        match rssl::compile(args) {
+            Ok(ps) => Ok(ps
+                .into_iter()
+                .map(|p| PipeOut {
+                    data: p.data,
+                    stages: p
+                        .stages
+                        .iter()
+                        .map(|s| (format!("{:?}", s.stage), s.entry_point.clone(), s.thread_group_size))
+                        .collect(),
+                    metadata: format!("{:?}", p.metadata),
+                    state: format!("{:?}", p.graphics_pipeline_state),
+                })
+                .collect::<Vec<_>>()),
+            Err(e) => Err(format!("{}", e)),
+        }
+    });
+    match r {
+        Ok(Ok(v)) => CompileOutcome::Ok(v),
+        Ok(Err(e)) => CompileOutcome::Err(e),
+        Err(p) => CompileOutcome::Panic(p),
+    }
+}
+
+/// The repository's own shader inputs: (root directory, entry file) pairs found under /repo/tests
+pub fn repo_corpus(repo: &str) -> Vec<(String, String)> {
+    let mut out = Vec::new();
+    let tests = format!("{}/tests", repo);
+    let mut stack = vec![std::path::PathBuf::from(&tests)];
+    while let Some(dir) = stack.pop() {
+        let Ok(rd) = std::fs::read_dir(&dir) else { continue };
+        let mut entries: Vec<_> = rd.filter_map(|e| e.ok()).map(|e| e.path()).collect();
+        entries.sort();
+        for p in entries {
+            if p.is_dir() {
+                stack.push(p);
+            } else if let Some(ext) = p.extension().and_then(|e| e.to_str()) {
+                if matches!(ext, "rssl" | "comp" | "frag" | "vert" | "geom")
+                    || (ext == "hlsl" && p.to_string_lossy().contains("_pass.hlsl"))
+                {
+                    let rel = p.strip_prefix(&tests).unwrap().to_string_lossy().into_owned();
+                    // root = first path component, entry = the rest
+                    if let Some((root, entry)) = rel.split_once('/') {
+                        out.push((format!("{}/{}", tests, root), entry.to_string()));
+                    }
+                }
+            }
+        }
+    }
+    out.sort();
+    out
+}
